@@ -11,7 +11,7 @@ META = {
             "right-hand sides each, and runs LUSolve::exe (2- and 4-argument, matrix and tmatrix), LUSolve::back_substitute on the kept "
             "factorisation, LUDecomp<true|false>+back substitution, QRDecomp exe+tq_product+back_substitute, TinyMatrixSolve exe "
             "(vector and matrix right-hand sides, exceptions on/off, closed forms N=1,2,3 named separately), decomp+back_substitute, "
-            "TinyMatrixInvert. Success requires ||Ax-b|| <= (600+20n)·eps·kappa_F·||A||_F·||x|| (cases with kappa·eps>1e-2 skipped and "
+            "TinyMatrixInvert. Success requires ||Ax-b|| <= (1600+40n)·eps·kappa_F·||A||_F·||x|| (cases with kappa·eps>1e-2 skipped and "
             "counted); a well-conditioned system must not be reported singular. Exactly singular families on which elimination is exact "
             "in floating point for every pivot order (zero row, zero column, zero matrix, duplicated row of a totally unimodular interval "
             "matrix, power-of-two rank-one, digraph incidence matrices, all with power-of-two scalings) must be reported by exception or "
@@ -55,13 +55,13 @@ def run(ctx):
             if api.startswith("QR") and st not in ("sing-zero-col", "sing-zero-matrix"):
                 continue
             req.append((api, st, 30))
-    ctx.run_events(b["c07_dyn"], ctx.n(90000, 2700000), require=req, env=ENV)
+    ctx.run_events(b["c07_dyn"], ctx.n(90000, 1350000), require=req, env=ENV)
     req = []
     for api in TINY_APIS:
         for st in NONSING + SING:
             req.append((api, st, 10 if "<1," in api or "<2," in api or "<3," in api else 30))
     # the three TinyMatrixSolve binaries (one scalar type each) emit the same (API, stratum) keys: fold them into ONE summary
-    n = ctx.n(45000, 1350000)
+    n = ctx.n(45000, 675000)
     shards = max(1, min(vfcore.NCPU // 3, n // 2000))
     per = (n + shards - 1) // shards
     jobs = [(k, i) for k in TYPES for i in range(shards)]
